@@ -3,76 +3,118 @@
 -/
 import RxModel.Model.Compile
 import RxModel.Props.C09
+import RxModel.Proofs.LeafLemmas
 namespace Rx.C11
 open Rx
 
 /-- `equal_case_blind` is "equal after simple lower-casing" … -/
 theorem eqCB_iff (lower : Nat → Nat) (a b : Nat) : eqCB lower a b = true ↔ lower a = lower b ∨ a = b := by
-  sorry
+  simp [eqCB, or_comm]
 
 theorem eqCB_iff_lower (lower : Nat → Nat) (a b : Nat) : eqCB lower a b = true ↔ lower a = lower b := by
-  sorry
+  rw [eqCB_iff]
+  constructor
+  · rintro (h | h)
+    · exact h
+    · rw [h]
+  · exact Or.inl
 
 /-- … hence an equivalence relation -/
 theorem eqCB_refl (lower : Nat → Nat) (a : Nat) : eqCB lower a a = true := by
-  sorry
+  simp [eqCB]
 theorem eqCB_symm (lower : Nat → Nat) (a b : Nat) : eqCB lower a b = eqCB lower b a := by
-  sorry
+  rw [Bool.eq_iff_iff, eqCB_iff_lower, eqCB_iff_lower]; exact eq_comm
 theorem eqCB_trans (lower : Nat → Nat) (a b c : Nat) (h1 : eqCB lower a b = true) (h2 : eqCB lower b c = true) :
     eqCB lower a c = true := by
-  sorry
+  rw [eqCB_iff_lower] at *; exact h1.trans h2
 
 /-- a character and its simple lower-case counterpart are interchangeable, in the input or in the pattern -/
 theorem eqCB_lower_left (lower : Nat → Nat) (hidem : ∀ x, lower (lower x) = lower x) (a b : Nat) :
     eqCB lower (lower a) b = eqCB lower a b := by
-  sorry
+  rw [Bool.eq_iff_iff, eqCB_iff_lower, eqCB_iff_lower, hidem]
 
 /-- without flag i a literal matches only the identical characters -/
 theorem atom_exact (ctx : Ctx) (hcb : ctx.caseBlind = false) (cs xs : List Nat) :
     prefixMatch ctx cs xs = true ↔ cs <+: xs := by
-  sorry
+  induction cs generalizing xs with
+  | nil => simp [prefixMatch]
+  | cons c cs ih =>
+    cases xs with
+    | nil => simp [prefixMatch]
+    | cons x xs =>
+      simp only [prefixMatch, Ctx.eqAt, hcb, Bool.false_eq_true, if_false, Bool.and_eq_true,
+        beq_iff_eq, ih, List.cons_prefix_cons]
+      constructor <;> rintro ⟨h1, h2⟩ <;> exact ⟨h1.symm, h2⟩
 
 /-- with flag i a literal matches character by character up to case -/
 theorem atom_ci (ctx : Ctx) (hcb : ctx.caseBlind = true) (cs xs : List Nat) :
     prefixMatch ctx cs xs = true ↔
       cs.length ≤ xs.length ∧ ∀ k (hk : k < cs.length) (hx : k < xs.length), eqCB ctx.lower xs[k] cs[k] = true := by
-  sorry
+  exact Leaf.prefixMatch_ci ctx hcb cs xs
 
 /-- the literal generator: yields `p + |cs|` exactly when the characters at `p` match, state untouched -/
 theorem atomGen_spec (ctx : Ctx) (cs : List Nat) (p : Nat) (st : St) :
     atomGen ctx cs p st =
       if p + cs.length ≤ ctx.len ∧ prefixMatch ctx cs (ctx.input.drop p) = true
       then Step.once (p + cs.length) st else Step.nil st := by
-  sorry
+  unfold atomGen
+  by_cases h : p + cs.length ≤ ctx.len
+  · have : ¬ (p + cs.length > ctx.len) := by omega
+    simp [h, this]
+  · have : (p + cs.length > ctx.len) := by omega
+    simp [h, this]
 
 /-- replacing input characters by case counterparts does not change what a literal matches -/
 theorem atom_input_case_invariant (ctx : Ctx) (hcb : ctx.caseBlind = true) (cs xs ys : List Nat)
     (hlen : xs.length = ys.length)
     (hcase : ∀ k (h1 : k < xs.length) (h2 : k < ys.length), ctx.lower xs[k] = ctx.lower ys[k]) :
     prefixMatch ctx cs xs = prefixMatch ctx cs ys := by
-  sorry
+  rw [Bool.eq_iff_iff, atom_ci ctx hcb, atom_ci ctx hcb]
+  simp only [eqCB_iff_lower]
+  constructor
+  · rintro ⟨hl, h⟩
+    exact ⟨by omega, fun k hk hx => by rw [← hcase k (by omega) hx]; exact h k hk (by omega)⟩
+  · rintro ⟨hl, h⟩
+    exact ⟨by omega, fun k hk hx => by rw [hcase k hx (by omega)]; exact h k hk (by omega)⟩
 
 /-- … nor does replacing pattern letters -/
 theorem atom_pattern_case_invariant (ctx : Ctx) (hcb : ctx.caseBlind = true) (cs ds xs : List Nat)
     (hlen : cs.length = ds.length)
     (hcase : ∀ k (h1 : k < cs.length) (h2 : k < ds.length), ctx.lower cs[k] = ctx.lower ds[k]) :
     prefixMatch ctx cs xs = prefixMatch ctx ds xs := by
-  sorry
+  rw [Bool.eq_iff_iff, atom_ci ctx hcb, atom_ci ctx hcb]
+  simp only [eqCB_iff_lower]
+  constructor
+  · rintro ⟨hl, h⟩
+    exact ⟨by omega, fun k hk hx => by rw [← hcase k (by omega) hk]; exact h k (by omega) hx⟩
+  · rintro ⟨hl, h⟩
+    exact ⟨by omega, fun k hk hx => by rw [hcase k hk (by omega)]; exact h k (by omega) hx⟩
 
 /-- a class member under flag i: the character itself and its whole case closure -/
 theorem class_member_ci (c : PC) (ch : Nat) (rs : Ranges) (hc : C09.Canon rs) (x : Nat) :
     clsContains (addCharCI c ch rs) x =
       (decide (x = ch) || (c.fl.caseBlind && (c.env.closure ch).contains x) || clsContains rs x) := by
-  sorry
+  have h0 := Leaf.sorted_of_canon hc
+  have h1 := Leaf.sorted_contains_addChar rs h0 ch x
+  have h2 := Leaf.sorted_addChar rs h0 ch
+  unfold addCharCI
+  cases hcb : c.fl.caseBlind with
+  | false => simp [h1]
+  | true =>
+    simp only [if_true, Bool.true_and]
+    rw [(Leaf.addChars_spec _ _ h2 x).1, h1]
+    grind
 
 /-- class escapes and the category / block escapes do not look at flag i -/
 theorem escape_ignores_i (c : PC) (b : Bool) (s : PS) (inBr : Bool) :
     escape { c with fl := { c.fl with caseBlind := b } } s inBr = escape c s inBr := by
-  sorry
+  exact Leaf.escape_fl c { c.fl with caseBlind := b } rfl s inBr
 
 /-- the dot does not look at flag i -/
 theorem dot_ignores_i (c : PC) (b : Bool) (f : Nat) (s : PS) (h : c.at s.idx = 46) :
     parseTerminal { c with fl := { c.fl with caseBlind := b } } (f + 1) s = parseTerminal c (f + 1) s := by
-  sorry
+  have h' : PC.at { c with fl := { c.fl with caseBlind := b } } s.idx = 46 := h
+  rw [parseTerminal, parseTerminal]
+  simp [h, h']
 
 end Rx.C11
